@@ -167,6 +167,53 @@ theorem wrap_block {ρ : Type} (pre post : List MwSpec) (b : MwSpec)
     rw [hr]
     simp
 
+/-- **wrap_nil.**  `Wrap(h)` with no middlewares is `h` itself: it never panics and serves
+every request exactly as `h` does. -/
+theorem wrap_nil {ρ ε : Type} (h : Handler ρ ε) :
+    wrap h [] = .ok h ∧ ∃ w, wrap h [] = .ok w ∧ ∀ r, w r = h r :=
+  ⟨wrap_eq_foldr h [], h, wrap_eq_foldr h [], fun _ => rfl⟩
+
+/-- **wrap_wrap.**  `Wrap(Wrap(h, ms₂...), ms₁...)` is `Wrap(h, ms₁..., ms₂...)`: neither
+call panics, and the two handlers are the same function of the request — for every handler
+and all lists of middlewares, whatever the middlewares do (pass the request on, answer
+themselves, call the next handler several times). -/
+theorem wrap_wrap {ρ ε : Type} (h : Handler ρ ε) (ms₁ ms₂ : List (Middleware ρ ε)) :
+    ∃ w₂ w, wrap h ms₂ = .ok w₂ ∧ wrap w₂ ms₁ = .ok w ∧ wrap h (ms₁ ++ ms₂) = .ok w ∧
+      (wrap h ms₂ >>= fun w₂ => wrap w₂ ms₁) = wrap h (ms₁ ++ ms₂) := by
+  refine ⟨_, _, wrap_eq_foldr h ms₂, wrap_eq_foldr _ ms₁, ?_, ?_⟩
+  · rw [wrap_eq_foldr, List.foldr_append]
+  · rw [wrap_eq_foldr h ms₂, wrap_eq_foldr h (ms₁ ++ ms₂), List.foldr_append]
+    show wrap _ ms₁ = _
+    rw [wrap_eq_foldr]
+
+/-- `wrap_wrap` for the recording middlewares of the order experiment, blocking ones
+included: the same events in the same order — so the same middlewares receive the request in
+the same order and the handler is reached in the one exactly when it is reached in the
+other. -/
+theorem wrap_wrap_trace {ρ : Type} (ms₁ ms₂ : List MwSpec) :
+    ∃ w₂ w₁₂ w, wrap baseHandler (ms₂.map (MwSpec.mw (ρ := ρ))) = .ok w₂ ∧
+      wrap w₂ (ms₁.map (MwSpec.mw (ρ := ρ))) = .ok w₁₂ ∧
+      wrap baseHandler ((ms₁ ++ ms₂).map (MwSpec.mw (ρ := ρ))) = .ok w ∧
+      ∀ r, w₁₂ r = w r ∧ receivers (w₁₂ r) = receivers (w r) := by
+  obtain ⟨w₂, w, h2, h1, h12, _⟩ :=
+    wrap_wrap (baseHandler (ρ := ρ)) (ms₁.map MwSpec.mw) (ms₂.map MwSpec.mw)
+  refine ⟨w₂, w, w, h2, h1, ?_, fun r => ⟨rfl, rfl⟩⟩
+  rw [List.map_append]; exact h12
+
+/-! ### Non-vacuity of `wrap_wrap`: a concrete split, with and without a blocking middleware -/
+
+example : ∃ w₂ w, wrap (baseHandler (ρ := Nat)) ([⟨3, false⟩].map MwSpec.mw) = .ok w₂ ∧
+    wrap w₂ ([⟨1, false⟩, ⟨2, false⟩].map MwSpec.mw) = .ok w ∧
+    w 7 = [.enter 1 7, .enter 2 7, .enter 3 7, .handler 7, .exit 3 7, .exit 2 7, .exit 1 7] :=
+  ⟨_, _, wrap_eq_foldr _ _, wrap_eq_foldr _ _, by decide⟩
+
+-- the blocking middleware is in the inner `Wrap`: the outer ones still see the request,
+-- the handler does not
+example : ∃ w₂ w, wrap (baseHandler (ρ := Nat)) ([⟨2, true⟩, ⟨3, false⟩].map MwSpec.mw) = .ok w₂ ∧
+    wrap w₂ ([⟨1, false⟩].map MwSpec.mw) = .ok w ∧
+    w 7 = [.enter 1 7, .enter 2 7, .exit 2 7, .exit 1 7] ∧ receivers (w 7) = [some 1, some 2] :=
+  ⟨_, _, wrap_eq_foldr _ _, wrap_eq_foldr _ _, by decide, by decide⟩
+
 /-! ## Part 2 — `LogMiddleware` under concurrency -/
 
 section
